@@ -374,6 +374,23 @@ def encode_origins(model: Model, fi, call: ast.Call, depth: int = 0):
     recv = call.func.value
     if isinstance(recv, ast.Attribute) and isinstance(recv.value, ast.Name) and recv.value.id == "self" and fi.cls:
         return [(fi.cls, recv.attr, False)]
+    if isinstance(recv, ast.Attribute) and isinstance(recv.value, ast.Name) and recv.value.id in fi.params() and fi.cls is None and depth < 3:
+        # <param>.<field> in a module-level helper that is handed the message object itself
+        idx = fi.params().index(recv.value.id)
+        out = []
+        n_sites = 0
+        for cq, cfi in model.functions.items():
+            if isinstance(cfi.node, ast.Lambda):
+                continue
+            for n in walk_no_nested(cfi.node):
+                if isinstance(n, ast.Call) and isinstance(n.func, ast.Name) and model.resolve_name(cfi.module, n.func.id) == fi.qualname:
+                    n_sites += 1
+                    a = n.args[idx] if idx < len(n.args) else next((k.value for k in n.keywords if k.arg == recv.value.id), None)
+                    if isinstance(a, ast.Name) and a.id == "self" and cfi.cls:
+                        out.append((cfi.cls, recv.attr, False))
+                    else:
+                        return None
+        return out if n_sites else None
     if not isinstance(recv, ast.Name):
         return None
     src: Optional[ast.expr] = None
